@@ -137,6 +137,26 @@ Definition nobs_eqb (a b : nobs) : bool :=
 
 Definition tcase_spec_ok (c : tcase) : bool := nobs_eqb (tc_nat_ps c) (tc_nat_py c).
 
+(* ---------- compact vocabulary for the generated case files (coqc's parser is the bottleneck) ---------- *)
+Definition o_ := VObj.
+Definition i_ (z : Z) := VConst (CInt z).
+Definition s_ (s : list N) := VConst (CStr s).
+Definition f_ (n : N) := VConst (CFloat n).
+Definition y_ (n : N) := VConst (CBytes n).
+Definition b1 := VConst (CBool true).
+Definition b0 := VConst (CBool false).
+Definition n_ := VConst CNone.
+Definition e_ := VConst CEllipsis.
+Definition l_ := VList.
+Definition t_ := VTuple.
+Definition z_ := VSet.
+Definition d_ := VDict.
+Definition sl_ := VSlice.
+Definition te := Build_tentry.
+Definition rt := TRet.
+Definition rx := TRaise.
+Definition tc := Build_tcase.
+
 (* ---------- attribution of a Spec failure to listed findings ---------- *)
 Record switch := { sw_id : nat; sw_get : deviations -> bool; sw_off : deviations -> deviations }.
 
